@@ -109,6 +109,17 @@ func zzH_C18_recv() {
 		}
 		verifQuiesce()
 	}
+	if !done && verifNondetBool() {
+		// the peer stays silent for good and nobody pauses any more: the read must end with the time-out, not hang
+		for i := 0; i < 3 && !done; i++ {
+			verifAdvanceTime()
+			verifQuiesce()
+		}
+		verifAssert(done, "reader still waiting although the peer has been silent beyond the timeout with no pause")
+		verifAssert(rerr != nil, "read succeeded without input")
+		verifReach("silent-timeout")
+		return
+	}
 	if !done {
 		t.addReceivedData([]byte("#SUCC:5\n"), false)
 		verifQuiesce()
